@@ -224,6 +224,12 @@ func (t *Ty) BuildObject() *schema.ObjectSchema {
 			return append(make([]string, 0, len(l)), l...)
 		}
 		ps := schema.NewPropertySchema(p.Ty.Build(), nil, p.Required, own(p.RequiredIf), own(p.RequiredIfNot), own(p.Conflicts), def, nil)
+		if !p.Disabled && len(np.Name) > 0 && np.Name[0]%3 == 0 {
+			// a reason left over on a property that is NOT disabled (a received description may carry
+			// `disabled_reason` with `disabled: false`, or without `disabled`): the flag alone decides
+			reason := "to be removed in the next release"
+			ps.DisabledReason = &reason
+		}
 		if p.Disabled {
 			if len(np.Name) > 0 && np.Name[0]%2 == 0 {
 				// disabled without a reason, as a received description may say (`disabled: true` alone)
